@@ -132,6 +132,11 @@ inductive SeqItem where
   | decl (scope : Nat) (c : TCand)
   /-- the definition of an ordinary function declared earlier -/
   | define (id : Nat)
+  /-- a later declaration (prototype or definition) of the ordinary function `id` declared earlier whose parameters
+      from `nd` on carry default values - possibly other ones than in the first declaration.  `check_existing_functions`
+      compares `param_types` only and hands back the first declaration's id: the later signature, and with it its
+      `non_default_params`, is dropped -/
+  | redecl (id : Nat) (nd : Nat)
   /-- a function whose body calls the name: lookup mode (0 `f(..)` at the root, 1 `N::f(..)` at the root, 2 `f(..)`
       inside `namespace N`, 3 `::f(..)` inside `namespace N`; methods: 0 / 1 a call of `S::f` from a sibling method /
       from outside, 2 / 3 the same for `S2::f`), explicit template arguments, argument types -/
@@ -242,6 +247,7 @@ def seqStep (p : SeqPath) (st : SeqState) : SeqItem → SeqState × Option SiteO
       else if s = 1 then ({ st with ns := st.ns ++ k.syms }, none)
       else (st, none)
   | .define _ => (st, none)
+  | .redecl _ _ => (st, none)
   | .site m x a => (st, some (siteObs (st.visible p m) x a))
   | .helper j m a => ({ st with helpers := st.helpers ++ [(j, m, a)] }, none)
   | .trigger j z =>
@@ -269,6 +275,35 @@ def runFrom (p : SeqPath) (st : SeqState) (k : Nat) : List SeqItem → List (Nat
 /-- the whole sequence -/
 def runSeq (p : SeqPath) (items : List SeqItem) : List (Nat × SiteObs) :=
   runFrom p (SeqState.init p items) 0 items
+
+/-! ## a function *template* declared more than once
+
+`check_existing_functions` recognises an earlier declaration by `existing_signature.param_types == signature.param_types`.
+Every declaration of a template registers its own template type parameters, so two declarations of
+`template<typename T> R f(T a)` have different `param_types` (another `TypeId` for `T`): the later one - prototype or
+definition - is **not** combined with the earlier one but registered and pushed as one more overload.  A template whose
+parameter types mention no template parameter (`template<typename T> R f(int a)`) is combined like an ordinary function. -/
+
+def PTy.mentionsParam : PTy → Bool
+  | .conc _ => false
+  | _ => true
+
+def findDecl (id : Nat) : List SeqItem → Option (Nat × TCand)
+  | [] => none
+  | .decl s c :: is => if c.id = id then some (s, c) else findDecl id is
+  | _ :: is => findDecl id is
+
+/-- the unit as the type checker takes it: a later declaration of a function whose parameter types mention a template
+    parameter is a declaration of a further overload (with the later declaration's default arguments); every other
+    later declaration stays a `redecl` (which changes nothing) -/
+def elaborate (items : List SeqItem) : List SeqItem :=
+  items.map fun i =>
+    match i with
+    | .redecl id nd =>
+      match findDecl id items with
+      | some (s, c) => if c.params.any (fun q => q.pat.mentionsParam) then .decl s { c with nonDefault := nd } else i
+      | none => i
+    | _ => i
 
 /-! ## the one piece of state a resolution leaves behind: the instantiation registry
 
